@@ -906,21 +906,33 @@ fn cmd_fuzz(args: &[String]) {
             }
             writeln!(out, "{}", r).unwrap();
         }
-        // evaluate node by node
-        let last = p.pool.last().unwrap().0.clone();
+        // evaluate node by node; the output is the last node or (2 times in 5) any node, so that graphs whose output
+        // has consumers of its own are covered (evaluate_graph frees a value after its last consumer)
+        let last = if rng.gen_range(0..5) < 2 {
+            let k = rng.gen_range(0..p.pool.len());
+            p.pool[k].0.clone()
+        } else {
+            p.pool.last().unwrap().0.clone()
+        };
         if last.set_as_output().is_err() || g.finalize().is_err() || g.set_as_main().is_err() || c.finalize().is_err() {
             continue;
         }
         for round in 0..2 {
-            let mut ev = SimpleEvaluator::new(None).unwrap();
+            let mut evseed = [0u8; 16];
+            rng.fill(&mut evseed);
+            let mut ev = SimpleEvaluator::new(Some(evseed)).unwrap();
             let nodes = g.get_nodes();
             let mut vals: Vec<Option<Value>> = vec![None; nodes.len()];
+            let mut node_rt = false;
+            let mut node_panic = false;
+            let mut graph_inputs: Vec<Value> = vec![];
             for n in nodes.iter() {
                 let i = n.get_id() as usize;
                 let t = n.get_type().unwrap();
                 let opname = op_json(&n.get_operation(), Num::Mod(15))["op"].as_str().unwrap().to_string();
                 if n.get_operation().is_input() {
                     vals[i] = Some(rand_input(&mut rng, &t));
+                    graph_inputs.push(vals[i].clone().unwrap());
                     continue;
                 }
                 let dv: Option<Vec<Value>> =
@@ -941,12 +953,45 @@ fn cmd_fuzz(args: &[String]) {
                     Ok(Err(e)) => {
                         writeln!(out, "{}", json!({"kind":"rt","id":id,"op":opname,"msg":e.to_string().chars().take(80).collect::<String>()})).unwrap();
                         n_rt += 1;
+                        node_rt = true;
                     }
                     Err((m, l)) => {
+                        node_panic = true;
                         writeln!(out, "{}", json!({"kind":"panic","id":id,"op":opname,"msg":m,"loc":l,
                             "rec":op_json(&n.get_operation(), Num::Str),
                             "ats":n.get_node_dependencies().iter().map(|d| type_json(&d.get_type().unwrap())).collect::<Vec<_>>()})).unwrap();
                     }
+                }
+            }
+            // the same graph, inputs and PRNG seed through Evaluator::evaluate_graph (spec/EvalGraph.tla)
+            if node_panic {
+                continue;
+            }
+            let oi = last.get_id() as usize;
+            let ot = last.get_type().unwrap();
+            let id = format!("fuzz/{pi}/graph/r{round}");
+            let opname = op_json(&last.get_operation(), Num::Mod(15))["op"].as_str().unwrap().to_string();
+            let mut ev2 = SimpleEvaluator::new(Some(evseed)).unwrap();
+            let gg = g.clone();
+            match guarded(|| ev2.evaluate_graph(gg, graph_inputs)) {
+                Ok(Ok(v)) => {
+                    let chk = matches!(guarded(|| v.check_type(ot.clone())), Ok(Ok(true)));
+                    let same = match &vals[oi] {
+                        Some(w) => {
+                            let (mut a, mut b) = (vec![], vec![]);
+                            cc_conform::detleak::value_bytes(&v, &mut a);
+                            cc_conform::detleak::value_bytes(w, &mut b);
+                            a == b
+                        }
+                        None => false,
+                    };
+                    writeln!(out, "{}", json!({"kind":"graph","id":id,"op":opname,"out":oi,"nodes":nodes.len(),"res":"value","chk":chk,"same":same,"node_rt":node_rt})).unwrap();
+                }
+                Ok(Err(_)) => {
+                    writeln!(out, "{}", json!({"kind":"graph","id":id,"op":opname,"out":oi,"nodes":nodes.len(),"res":"error","chk":false,"same":false,"node_rt":node_rt})).unwrap();
+                }
+                Err((m, l)) => {
+                    writeln!(out, "{}", json!({"kind":"graph","id":id,"op":opname,"out":oi,"nodes":nodes.len(),"res":"panic","chk":false,"same":false,"node_rt":node_rt,"msg":m,"loc":l})).unwrap();
                 }
             }
         }
